@@ -38,8 +38,17 @@ CFG = {
     "theorems": [
         "Swat4.C06.udp_total",
         "Swat4.C06.udp_empty_panics",
+        "Swat4.C06.udp_never_panics_checked",
+        "Swat4.C06.udp_checked_panics_iff",
+        "Swat4.HeartbeatChecked.dispatchChecked_eq",
+        "Swat4.HeartbeatChecked.collapse_dispatchChecked",
         "Swat4.C06.tcp_total",
         "Swat4.C06.tcp_handle_total",
+        "Swat4.C06.tcp_pipeline_total",
+        "Swat4.C06.tcp_pipeline_never_panics",
+        "Swat4.C06.tcp_pipeline_refines_handle",
+        "Swat4.BrowserPipeline.packServersChecked_eq",
+        "Swat4.BrowserReqBridge.newRequest_eq",
         "Swat4.C06.rejected_no_effect",
         "Swat4.C06.unreached_no_effect",
         "Swat4.C06.malformed_no_effect",
@@ -64,7 +73,16 @@ CFG = {
             "the real udpserver on 127.0.0.1, an `available` request must be answered after every datagram; non-trivial = non-empty payload",
     "assumptions": [
         "udpserver only hands datagrams with n > 0 bytes to the dispatcher (pkg/udp/udpserver/server.go); udp_empty_panics shows the guard is needed",
-        "healthy storage; the request parser model covers browsing.NewRequest only - filter parsing and listing are C03/C01",
+        "healthy storage. TCP: BrowserReq06.handle (what the differential stream compares with the code) covers browsing.NewRequest only; "
+        "tcp_pipeline_total covers the whole handler goroutine by composing the checked models of the other stages - query.NewFromString "
+        "(C03.filter_parse_never_panics), packServers (packServersChecked_eq), crypt.Encrypt (C02.encrypt_total) - with the listing use case as "
+        "a parameter (any function from the parsed query to a server list or an error): listservers.Execute itself (repository Filter + Query.Match) "
+        "is not transcribed with checked operations - Query.Match is C03's queryMatch, total by construction (type switches with default branches), "
+        "the repository is C09/C10",
+        "UDP: Model/Heartbeat.lean is total by construction except payload[0]; udp_never_panics_checked is about Model/HeartbeatChecked.lean, "
+        "which transcribes the path up to the use-case call and the reply construction with checked index/slice/assignment operations; NOT "
+        "transcribed there (taken as total): bytes.ToValidUTF8, strconv.Atoi, map operations, append/make, addr.New on a 4-byte IP, params.Unmarshal, "
+        "validator, the logger, and the use cases themselves (C04/C09)",
         "'returns promptly' and 'the process keeps running' are run-time facts: measured (udpsrv stream, TCP deadlines), not proved",
         "'sends at most one reply' is NOT a proof obligation: the model's Outcome/TcpOutcome types cannot express two replies, so "
         "at_most_one_reply/tcp_at_most_one_reply hold for any function and were removed from the audited list; the clause is covered by the "
@@ -78,12 +96,21 @@ CFG = {
     ],
     "trusted_base": COMMON_TRUSTED + [
         "generated Facts.lean section `reporter` (message bytes, whitelists, MinRequestPayloadLength, MaxAllowedNumberOfFields)",
-        "the inventory of partial operations modelled: payload[0]; payload[1:5], payload[5:] (guarded by len<5); data[:2], data[9:dataLen], unparsed[:8], unparsed[8:], fields[0], fields[1:], Uint16, Uint32",
+        "the inventory of partial operations modelled. UDP (Model/HeartbeatChecked.lean): payload[0] (twice: Handle's log line, dispatch); "
+        "payload[1:5], payload[5:] (guarded by len<5); unparsed[0] in the loop condition and in the missing-value test of parseHeartbeatParams "
+        "(behind the short-circuit on len); data[i], data[:i], data[i+1:] of binutils.ConsumeString; clientAddr[1:5], clientAddr[5:7], resp[:3], "
+        "resp[3:7], resp[7:13], resp[13:27]; b[1], b[0]=, b[1]= of PutUint16; hextable[v>>4], hextable[v&0x0f], dst[j]=, dst[j+1]= of hex.Encode. "
+        "TCP request (BrowserReq06 / Browsing): data[:2], data[9:dataLen], unparsed[:8], unparsed[8:], fields[0], fields[1:], Uint16, Uint32, ConsumeString. "
+        "TCP filters (Model/Filter.lean, checked): s[:i], s[i+5:], filterBytes[i:j], filterBytes[i:], rawVal[0], rawVal[len-1], rawVal[1:len-1]. "
+        "TCP packer (Model/BrowserPipeline.lean): payload[:4], payload[4:6], fields[:255], serverAddr[0]=, serverAddr[1:5], serverAddr[5:7], PutUint16",
+        "that the transcriptions in Model/HeartbeatChecked.lean and Model/BrowserPipeline.lean list EVERY partial operation of the Go path (read against "
+        "the source; the differential run compares Heartbeat.dispatch / BrowserReq06.handle with the code, and the theorems tie the checked "
+        "transcriptions to those)",
     ],
     "manifest": {
-        "text": "Lean theorems udp_total (Heartbeat.dispatch never panics on a non-empty datagram), tcp_total/tcp_handle_total (the browser request parser never panics), rejected_no_effect (an error outcome leaves registry, instances and queue unchanged), malformed_no_effect (definitional: state unchanged unless the model itself reaches and accepts a use case), mutation_implies_decodable (a datagram that changes the state is accepted by the independent decoder ReporterSpec.decode? as a heartbeat/removal/keepalive, or exhibits one of three documented leniencies of the real parsers - keepalive with trailing bytes, last string unterminated, unknown string without a value - each witnessed on the model and confirmed on the real dispatcher), acts_as_wellformed (every such datagram has exactly the effect and outcome of the encoding of a well-formed message); 'at most one reply' is not a theorem (the outcome types cannot express two replies): it is covered by the harness's reply count only; tied to the code by outcome + full-dump comparison on malformed streams and by real TCP connections to browser.Handler.Handle; liveness of the real udpserver is measured.",
+        "text": "Lean theorems udp_total (Heartbeat.dispatch never panics on a non-empty datagram - by construction except for payload[0]) and udp_never_panics_checked / HeartbeatChecked.dispatchChecked_eq (the honest version: HeartbeatChecked.dispatchChecked transcribes Dispatcher.Handle, dispatch, ParseInstanceID, the parseHeartbeatParams loop with binutils.ConsumeCString, and the reply construction with PutUint16 and hex.Encode expression by expression with CHECKED index/slice/assignment operations and a fuelled loop; it is .panic exactly on the empty datagram and otherwise .ok of exactly the state and outcome of Heartbeat.dispatch), tcp_total/tcp_handle_total (the browser request parser never panics), tcp_pipeline_total (the whole handler goroutine - NewRequest, query.NewFromString, listing as an arbitrary function of the parsed query, packServers with its slice expressions checked, crypt.Encrypt - ends in one reply or a close without reply for every byte string read (any length, so in particular <= 2048), every requester, every listing and every cipher draws: never panic or hang; composed from C01.parse_total, C03.filter_parse_never_panics, packServersChecked_eq, C02.encrypt_total) with tcp_pipeline_refines_handle (it replies/closes exactly when BrowserReq06.handle says so, via BrowserReqBridge.newRequest_eq: the C06 request model is the outcome class of the C01 one), rejected_no_effect (an error outcome leaves registry, instances and queue unchanged), malformed_no_effect (definitional: state unchanged unless the model itself reaches and accepts a use case), mutation_implies_decodable (a datagram that changes the state is accepted by the independent decoder ReporterSpec.decode? as a heartbeat/removal/keepalive, or exhibits one of three documented leniencies of the real parsers - keepalive with trailing bytes, last string unterminated, unknown string without a value - each witnessed on the model and confirmed on the real dispatcher), acts_as_wellformed (every such datagram has exactly the effect and outcome of the encoding of a well-formed message); 'at most one reply' is not a theorem (the outcome types cannot express two replies): it is covered by the harness's reply count only; tied to the code by outcome + full-dump comparison on malformed streams and by real TCP connections to browser.Handler.Handle; liveness of the real udpserver is measured.",
         "level_note": "Trusted: Lean kernel; axioms propext, Quot.sound, Classical.choice; the inventory of partial Go operations the model makes explicit; the differential run as evidence that the models behave like the code; generated Facts.lean. Promptness/liveness are measurements.",
-        "technique": "Lean 4 proof (totality by case analysis over explicit partial operations; frame by 'error => no write' per use case) + differential correspondence + socket-level measurement",
+        "technique": "Lean 4 proof (totality by case analysis over explicit partial operations; checked transcriptions proved equal to the total models; composition of the per-stage totality theorems of C01/C02/C03; frame by 'error => no write' per use case) + differential correspondence + socket-level measurement",
         "design_ref": "DESIGN.md §5 C06",
     },
 }
